@@ -695,7 +695,13 @@ class Visitor(ast.NodeVisitor):
             args = []  # type: List[Any]
             for arg_node in node.args:
                 if isinstance(arg_node, ast.Starred):
-                    args.extend(self.visit(node=arg_node.value))
+                    starred = self.visit(node=arg_node.value)
+
+                    # Please see "NOTE ABOUT PLACEHOLDERS AND RE-COMPUTATION"
+                    if starred is PLACEHOLDER:
+                        args.append(PLACEHOLDER)
+                    else:
+                        args.extend(starred)
                 else:
                     args.append(self.visit(node=arg_node))
 
@@ -703,8 +709,13 @@ class Visitor(ast.NodeVisitor):
             for keyword in node.keywords:
                 if keyword.arg is None:
                     kw = self.visit(node=keyword.value)
-                    for key, val in kw.items():
-                        kwargs[key] = val
+
+                    # Please see "NOTE ABOUT PLACEHOLDERS AND RE-COMPUTATION"
+                    if kw is PLACEHOLDER:
+                        kwargs[PLACEHOLDER] = PLACEHOLDER
+                    else:
+                        for key, val in kw.items():
+                            kwargs[key] = val
 
                 else:
                     kwargs[keyword.arg] = self.visit(node=keyword.value)
